@@ -187,7 +187,10 @@ def resume_instrs(ctx):
         ctx.instance(rule, construct,
                      sample={'pc': [unparse(p.value) for p in pcs],
                              'lookup': [unparse(c) for c in lookups]})
-        if len(pcs) != 1 or unparse(pcs[0].value) != f'stmt.{attr}':
+        if len(pcs) != 1 or not (
+                isinstance(pcs[0].value, ast.Attribute) and
+                pcs[0].value.attr == attr and
+                isinstance(pcs[0].value.value, ast.Name)):
             ctx.finding(rule, construct + ':pc',
                         f'{name} sets pc to '
                         f'{[unparse(p.value) for p in pcs]}; expected '
@@ -285,11 +288,13 @@ def reserved_codes(ctx):
     asm = repo.func('qbee.qvm_codegen', 'QvmCode.assembled')
     reserved = None
     for n in ast.walk(asm.node):
-        if isinstance(n, ast.If) and "op == 'errhand'" in unparse(n.test):
+        if isinstance(n, ast.If) and "== 'errhand'" in unparse(n.test):
             for m in ast.walk(n):
                 if isinstance(m, ast.Compare) and \
                         isinstance(m.ops[0], ast.In) and \
-                        dotted(m.left) == 'label':
+                        isinstance(m.left, ast.Name) and \
+                        isinstance(m.comparators[0], (ast.List,
+                                                      ast.Tuple)):
                     reserved = sorted(const(e) for e in
                                       m.comparators[0].elts)
     construct = f'{asm.file}:QvmCode.assembled[errhand]'
